@@ -21,14 +21,29 @@ type apreqWorld struct {
 	origin time.Time
 	r      *rand.Rand
 	n      int
+	unitMs int // milliseconds per time unit of the trace (0: one)
+}
+
+func (aw *apreqWorld) units(d time.Duration) int {
+	if aw.unitMs > 1 {
+		return int(d/time.Millisecond) / aw.unitMs
+	}
+	return int(d / time.Millisecond)
 }
 
 func newAPReqWorld(r *rand.Rand) (*apreqWorld, error) {
+	return newAPReqWorldCache(r, true)
+}
+
+// inert = false leaves the creation of the process-wide cache to the first VerifyAPREQ, as an application does (skew: the default 5 min)
+func newAPReqWorldCache(r *rand.Rand, inert bool) (*apreqWorld, error) {
 	w, err := newKtWorld(17, r)
 	if err != nil {
 		return nil, err
 	}
-	service.GetReplayCache(24 * time.Hour)
+	if inert {
+		service.GetReplayCache(24 * time.Hour)
+	}
 	return &apreqWorld{w: w, st: service.NewSettings(w.kt, service.DecodePAC(false)), origin: time.Now().Truncate(time.Second), r: r}, nil
 }
 
@@ -53,7 +68,7 @@ func (aw *apreqWorld) mint(tag string) ([]byte, error) {
 // presentAPReq verifies wire once and logs inv/ret; auth identifies the authenticator in the trace
 func (aw *apreqWorld) presentAPReq(lg *c02log, t0 time.Time, wire []byte, auth absAuth) string {
 	op := atomic.AddInt64(&c02op, 1)
-	lg.add(atomic.AddInt64(&c02seq, 1), map[string]interface{}{"ev": "inv", "op": op, "a": auth, "now": int(time.Since(t0) / time.Millisecond)})
+	lg.add(atomic.AddInt64(&c02seq, 1), map[string]interface{}{"ev": "inv", "op": op, "a": auth, "now": aw.units(time.Since(t0))})
 	r := "other"
 	var ap messages.APReq
 	if err := ap.Unmarshal(wire); err == nil {
@@ -69,7 +84,7 @@ func (aw *apreqWorld) presentAPReq(lg *c02log, t0 time.Time, wire []byte, auth a
 			r = "other:" + verr.Error()
 		}
 	}
-	lg.add(atomic.AddInt64(&c02seq, 1), map[string]interface{}{"ev": "ret", "op": op, "r": r, "now": int(time.Since(t0) / time.Millisecond)})
+	lg.add(atomic.AddInt64(&c02seq, 1), map[string]interface{}{"ev": "ret", "op": op, "r": r, "now": aw.units(time.Since(t0))})
 	return r
 }
 
@@ -145,6 +160,67 @@ func c02apreqSched(tw *traceWriter, r *rand.Rand, ng int) error {
 		if err != nil {
 			return err
 		}
+	}
+	return nil
+}
+
+// mintDated returns a valid AP-REQ of client uniq whose authenticator is dated now, just inside the past end or just inside the
+// future end of the skew window
+func (aw *apreqWorld) mintDated(uniq, when string) ([]byte, error) {
+	c := map[string]string{}
+	for k, v := range c01nominal {
+		c[k] = v
+	}
+	c["ctime"] = when
+	m, err := mintAPReq(aw.w, c, c01Settings{Skew: "default", ClientAddr: "unset", Override: "none"}, aw.r, aw.origin, time.Now(), uniq, nil)
+	if err != nil {
+		return nil, err
+	}
+	if m.wire == nil {
+		return nil, fmt.Errorf("dated AP-REQ did not marshal")
+	}
+	return m.wire, nil
+}
+
+// c02apreqDated: sequential histories through VerifyAPREQ on the process-wide cache AS AN APPLICATION GETS IT (created by the first
+// verification, with the service's skew), over authenticators of one client dated at the two ends and in the middle of the skew window.
+// Nothing has to be waited for: all of them stay acceptable for the whole history, so each is accepted exactly once.
+func c02apreqDated(tw *traceWriter, r *rand.Rand, maxLen int) error {
+	aw, err := newAPReqWorldCache(r, false)
+	if err != nil {
+		return err
+	}
+	aw.unitMs = 300 // the default skew is 300 s: one unit of skew/1000 is 300 ms
+	whens := []string{"pastInside", "now", "futureInside"}
+	ts := []int{-990, 0, 990} // in units of skew/1000
+	var words [][]int
+	var rec func(w []int)
+	rec = func(w []int) {
+		if len(w) >= 2 {
+			words = append(words, w)
+		}
+		if len(w) == maxLen {
+			return
+		}
+		for s := 0; s < 3; s++ {
+			rec(append(append([]int{}, w...), s))
+		}
+	}
+	rec(nil)
+	for wi, w := range words {
+		uniq := fmt.Sprintf("c02-dated-%d-%d", aw.r.Int31(), wi)
+		var wires [3][]byte
+		for i := range whens {
+			if wires[i], err = aw.mintDated(uniq, whens[i]); err != nil {
+				return err
+			}
+		}
+		lg := &c02log{}
+		t0 := time.Now()
+		for _, sy := range w {
+			aw.presentAPReq(lg, t0, wires[sy], absAuth{0, ts[sy], 0, 0})
+		}
+		lg.flush(tw, map[string]interface{}{"kind": "apreq-dated", "word": w})
 	}
 	return nil
 }
